@@ -1363,6 +1363,206 @@ func offsetOf(v ssa.Value) (ssa.Value, int64) {
 	}
 }
 
+type dbEdge struct {
+	from, to string
+	w        int64
+} // to − from ≤ w
+
+const dbLenNode = "len(Grid.Cols)"
+
+type dbProver struct {
+	p       *Program
+	isLenOf func(ssa.Value) bool
+	entry   map[*ssa.Function][]dbEdge
+	busy    map[*ssa.Function]bool
+}
+
+func (d *dbProver) node(v ssa.Value) (string, int64, bool) {
+	b, off := offsetOf(v)
+	if c, ok := b.(*ssa.Call); ok {
+		if bi, ok := c.Call.Value.(*ssa.Builtin); ok && bi.Name() == "len" && d.isLenOf(c.Call.Args[0]) {
+			return dbLenNode, off, true
+		}
+	}
+	if c, ok := constInt(b); ok {
+		return "0", off + c, true
+	}
+	if bt, ok := b.Type().Underlying().(*types.Basic); !ok || bt.Info()&types.IsInteger == 0 {
+		return "", 0, false
+	}
+	return fmt.Sprintf("%p", b), off, true
+}
+
+// branchFacts: constraints contributed by the branch of block blk towards successor index si.
+func (d *dbProver) branchFacts(blk *ssa.BasicBlock, si int) []dbEdge {
+	iff, ok := blk.Instrs[len(blk.Instrs)-1].(*ssa.If)
+	if !ok {
+		return nil
+	}
+	bo, ok := iff.Cond.(*ssa.BinOp)
+	if !ok {
+		return nil
+	}
+	xn, xo, ok1 := d.node(bo.X)
+	yn, yo, ok2 := d.node(bo.Y)
+	if !ok1 || !ok2 {
+		return nil
+	}
+	op := bo.Op
+	if si == 1 { // the false edge: negate
+		switch op {
+		case token.LSS:
+			op = token.GEQ
+		case token.LEQ:
+			op = token.GTR
+		case token.GTR:
+			op = token.LEQ
+		case token.GEQ:
+			op = token.LSS
+		case token.NEQ:
+			op = token.EQL
+		default:
+			return nil
+		}
+	}
+	switch op {
+	case token.LSS: // X+xo < Y+yo  ⇒ X − Y ≤ yo−xo−1
+		return []dbEdge{{yn, xn, yo - xo - 1}}
+	case token.LEQ:
+		return []dbEdge{{yn, xn, yo - xo}}
+	case token.GTR: // Y+yo < X+xo ⇒ Y − X ≤ xo−yo−1
+		return []dbEdge{{xn, yn, xo - yo - 1}}
+	case token.GEQ:
+		return []dbEdge{{xn, yn, xo - yo}}
+	case token.EQL:
+		return []dbEdge{{yn, xn, yo - xo}, {xn, yn, xo - yo}}
+	}
+	return nil
+}
+
+// factsAt: everything the dominating branches (and, for an unexported helper, all of its call
+// sites) establish at block `at` of fn.
+func (d *dbProver) factsAt(fn *ssa.Function, at *ssa.BasicBlock) []dbEdge {
+	var edges []dbEdge
+	for _, blk := range fn.Blocks {
+		if blk == at || !blk.Dominates(at) || len(blk.Instrs) == 0 || len(blk.Succs) != 2 || blk.Succs[0] == blk.Succs[1] {
+			continue
+		}
+		for si := 0; si < 2; si++ {
+			if edgeRegion(blk, blk.Succs[si])[at] && !edgeRegion(blk, blk.Succs[1-si])[at] {
+				edges = append(edges, d.branchFacts(blk, si)...)
+			}
+		}
+	}
+	return append(edges, d.entryFacts(fn)...)
+}
+
+func dbShortest(edges []dbEdge, src string) map[string]int64 {
+	dist := map[string]int64{src: 0}
+	for round := 0; round < 16; round++ {
+		changed := false
+		for _, e := range edges {
+			if df, ok := dist[e.from]; ok {
+				if dt, ok2 := dist[e.to]; !ok2 || df+e.w < dt {
+					dist[e.to] = df + e.w
+					changed = true
+				}
+			}
+		}
+		if !changed {
+			break
+		}
+	}
+	return dist
+}
+
+// entryFacts: relations between the integer parameters of an unexported function (and between them
+// and len(t.Grid.Cols) / constants) that hold at EVERY call site — the caller validated its
+// arguments and delegates the splice ("the caller guarantees 0 <= start <= end").
+func (d *dbProver) entryFacts(fn *ssa.Function) []dbEdge {
+	if v, ok := d.entry[fn]; ok {
+		return v
+	}
+	if d.busy[fn] || fn.Parent() != nil || fn.Object() == nil || fn.Object().Exported() {
+		return nil
+	}
+	callers := d.p.callersIndex()[fn]
+	if len(callers) == 0 {
+		return nil
+	}
+	d.busy[fn] = true
+	defer func() { d.busy[fn] = false }()
+	type key struct{ from, to string }
+	var acc map[key]int64
+	first := true
+	usedAsValue := false
+	for caller := range callers {
+		allInstrs(caller, func(in ssa.Instruction) {
+			c, ok := in.(ssa.CallInstruction)
+			if !ok || staticCallee(c) != fn {
+				for _, op := range in.Operands(nil) {
+					if *op == ssa.Value(fn) {
+						if cc, isCall := in.(ssa.CallInstruction); !isCall || cc.Common().Value != ssa.Value(fn) {
+							usedAsValue = true
+						}
+					}
+				}
+				return
+			}
+			facts := d.factsAt(caller, in.Block())
+			// nodes of interest in the caller: the integer arguments, len, 0
+			type an struct {
+				callee string
+				node   string
+				off    int64
+			}
+			var ans []an
+			for i, a := range c.Common().Args {
+				if i >= len(fn.Params) {
+					continue
+				}
+				if n, o, ok := d.node(a); ok && n != "" {
+					ans = append(ans, an{fmt.Sprintf("%p", ssa.Value(fn.Params[i])), n, o})
+				}
+			}
+			ans = append(ans, an{dbLenNode, dbLenNode, 0}, an{"0", "0", 0})
+			site := map[key]int64{}
+			for _, x := range ans {
+				dist := dbShortest(facts, x.node)
+				for _, y := range ans {
+					if x.callee == y.callee {
+						continue
+					}
+					if dy, ok := dist[y.node]; ok {
+						// y.node − x.node ≤ dy ; argument = node + off ⇒ param_y − param_x ≤ dy + y.off − x.off
+						site[key{x.callee, y.callee}] = dy + y.off - x.off
+					}
+				}
+			}
+			if first {
+				acc, first = site, false
+				return
+			}
+			for k, w := range acc {
+				if w2, ok := site[k]; !ok {
+					delete(acc, k)
+				} else if w2 > w {
+					acc[k] = w2
+				}
+			}
+		})
+	}
+	var out []dbEdge
+	if !usedAsValue {
+		for k, w := range acc {
+			out = append(out, dbEdge{k.from, k.to, w})
+		}
+	}
+	sort.Slice(out, func(i, j int) bool { return out[i].from+out[i].to < out[j].from+out[j].to })
+	d.entry[fn] = out
+	return out
+}
+
 func ruleGridBound(r *Run) {
 	p := r.P
 	nUses := 0
@@ -1374,122 +1574,28 @@ func ruleGridBound(r *Run) {
 		fv, _ := fieldOfAddr(ld.X)
 		return fieldIs(p, fv, pkgDoc, "TableGrid", "Cols")
 	}
-	const lenNode = "len(Grid.Cols)"
+	pr := &dbProver{p: p, isLenOf: isGridCols, entry: map[*ssa.Function][]dbEdge{}, busy: map[*ssa.Function]bool{}}
 	for _, fn := range p.ModFuncs() {
 		if fn.Pkg == nil || fn.Pkg.Pkg.Path() != pkgDoc || len(fn.Blocks) == 0 {
 			continue
 		}
-		node := func(v ssa.Value) (string, int64, bool) {
-			b, off := offsetOf(v)
-			if c, ok := b.(*ssa.Call); ok {
-				if bi, ok := c.Call.Value.(*ssa.Builtin); ok && bi.Name() == "len" && isGridCols(c.Call.Args[0]) {
-					return lenNode, off, true
-				}
-			}
-			if c, ok := constInt(b); ok {
-				return "0", off + c, true
-			}
-			if bt, ok := b.Type().Underlying().(*types.Basic); !ok || bt.Info()&types.IsInteger == 0 {
-				return "", 0, false
-			}
-			return fmt.Sprintf("%p", b), off, true
-		}
-		type edge struct {
-			from, to string
-			w        int64
-		} // to − from ≤ w
-		// constraints contributed by the branch of block d towards successor index si
-		branchFacts := func(d *ssa.BasicBlock, si int) []edge {
-			iff, ok := d.Instrs[len(d.Instrs)-1].(*ssa.If)
-			if !ok {
-				return nil
-			}
-			bo, ok := iff.Cond.(*ssa.BinOp)
-			if !ok {
-				return nil
-			}
-			xn, xo, ok1 := node(bo.X)
-			yn, yo, ok2 := node(bo.Y)
-			if !ok1 || !ok2 {
-				return nil
-			}
-			// normalise to  X + xo  op  Y + yo
-			op := bo.Op
-			if si == 1 { // negate
-				switch op {
-				case token.LSS:
-					op = token.GEQ
-				case token.LEQ:
-					op = token.GTR
-				case token.GTR:
-					op = token.LEQ
-				case token.GEQ:
-					op = token.LSS
-				case token.EQL:
-					return nil
-				case token.NEQ:
-					op = token.EQL
-				default:
-					return nil
-				}
-			}
-			switch op {
-			case token.LSS: // X+xo < Y+yo  ⇒ X − Y ≤ yo−xo−1
-				return []edge{{yn, xn, yo - xo - 1}}
-			case token.LEQ:
-				return []edge{{yn, xn, yo - xo}}
-			case token.GTR: // Y+yo < X+xo ⇒ Y − X ≤ xo−yo−1
-				return []edge{{xn, yn, xo - yo - 1}}
-			case token.GEQ:
-				return []edge{{xn, yn, xo - yo}}
-			case token.EQL:
-				return []edge{{yn, xn, yo - xo}, {xn, yn, xo - yo}}
-			}
-			return nil
-		}
 		prove := func(at *ssa.BasicBlock, v ssa.Value, slack int64) (proved, guarded bool) {
-			vn, vo, ok := node(v)
+			vn, vo, ok := pr.node(v)
 			if !ok {
 				return false, false
 			}
-			var edges []edge
-			for _, d := range fn.Blocks {
-				if d == at || !d.Dominates(at) || len(d.Instrs) == 0 || len(d.Succs) != 2 || d.Succs[0] == d.Succs[1] {
-					continue
-				}
-				for si := 0; si < 2; si++ {
-					if edgeRegion(d, d.Succs[si])[at] && !edgeRegion(d, d.Succs[1-si])[at] {
-						fs := branchFacts(d, si)
-						for _, e := range fs {
-							if e.from == lenNode || e.to == lenNode {
-								guarded = true
-							}
-						}
-						edges = append(edges, fs...)
-					}
+			edges := pr.factsAt(fn, at)
+			for _, e := range edges {
+				if e.from == dbLenNode || e.to == dbLenNode {
+					guarded = true
 				}
 			}
-			// Bellman-Ford from lenNode: dist[x] = least w with x − len ≤ w
-			dist := map[string]int64{lenNode: 0}
-			for round := 0; round < 12; round++ {
-				changed := false
-				for _, e := range edges {
-					if df, ok := dist[e.from]; ok {
-						if dt, ok2 := dist[e.to]; !ok2 || df+e.w < dt {
-							dist[e.to] = df + e.w
-							changed = true
-						}
-					}
-				}
-				if !changed {
-					break
-				}
-			}
-			d, ok := dist[vn]
+			dist := dbShortest(edges, dbLenNode)
+			dv, ok := dist[vn]
 			if !ok {
 				return false, guarded
 			}
-			return d+vo <= slack, guarded
+			return dv+vo <= slack, guarded
 		}
 		seenKey := map[string]int{}
 		allInstrs(fn, func(in ssa.Instruction) {
@@ -1539,9 +1645,249 @@ func ruleGridBound(r *Run) {
 					key = fmt.Sprintf("%s#%d", key, seenKey[key])
 				}
 				r.Check("grid-bound", key, in.Pos(), proved,
-					fmt.Sprintf("%s uses %s as %s of t.Grid.Cols under a guard on len(t.Grid.Cols); the comparisons that dominate the use %s that it is in range (the grid of an opened table may be shorter than its rows: the guard must bound the value that is actually used)", shortName(topLevel(fn)), symOfExpr(u.v), u.what, map[bool]string{true: "imply", false: "do NOT imply"}[proved]))
+					fmt.Sprintf("%s uses %s as %s of t.Grid.Cols under a guard on len(t.Grid.Cols); the comparisons that dominate the use (and, for an unexported helper, hold at all of its call sites) %s that it is in range (the grid of an opened table may be shorter than its rows: the guard must bound the value that is actually used)", shortName(topLevel(fn)), symOfExpr(u.v), u.what, map[bool]string{true: "imply", false: "do NOT imply"}[proved]))
 			}
 		})
 	}
 	r.Min("guarded_grid_uses", nUses, 4)
+}
+
+// ---------------------------------------------------------------------------
+// R-REMOVE-TYPED (C08): "removing a paragraph … removes exactly that element".  In the
+// RemoveParagraph* entry points the position at which the body is spliced must be a position at
+// which a *Paragraph was actually found: the loop index of a range over Body.Elements, used inside
+// the ok-branch of `element.(*Paragraph)` for that very element — directly, or as the result of a
+// finder helper all of whose non-negative results are such positions.  An index computed by
+// arithmetic (paragraph index + number of tables seen) can land on a table, the section properties
+// or a bookmark.
+// ---------------------------------------------------------------------------
+
+func isBodyElements(p *Program, v ssa.Value) bool {
+	ld, ok := v.(*ssa.UnOp)
+	if !ok || ld.Op != token.MUL {
+		return false
+	}
+	fv, _ := fieldOfAddr(ld.X)
+	return fieldIs(p, fv, pkgDoc, "Body", "Elements")
+}
+
+// checkedParagraphPos: at instruction `at` of fn, integer value v is a position of Body.Elements
+// holding a *Paragraph.
+func checkedParagraphPos(p *Program, fn *ssa.Function, v ssa.Value, at ssa.Instruction, depth int) bool {
+	if depth > 3 {
+		return false
+	}
+	switch x := v.(type) {
+	case *ssa.Phi:
+		// a range index is itself a phi (index lowering uses phi+1); other phis: every input
+		if okAt := paragraphAssertRegion(p, fn, v, at); okAt {
+			return true
+		}
+		for _, e := range x.Edges {
+			if c, ok := constInt(e); ok && c < 0 {
+				continue
+			}
+			if !checkedParagraphPos(p, fn, e, at, depth+1) {
+				return false
+			}
+		}
+		return true
+	case *ssa.Call:
+		return finderReturnsChecked(p, x, -1, depth)
+	case *ssa.Extract:
+		if c, ok := x.Tuple.(*ssa.Call); ok {
+			return finderReturnsChecked(p, c, x.Index, depth)
+		}
+	}
+	return paragraphAssertRegion(p, fn, v, at)
+}
+
+func finderReturnsChecked(p *Program, c *ssa.Call, idx int, depth int) bool {
+	cal := staticCallee(c)
+	if cal == nil || !p.inModule(cal) || len(cal.Blocks) == 0 {
+		return false
+	}
+	if idx < 0 {
+		idx = 0
+	}
+	any := false
+	for _, ret := range returnsOf(cal) {
+		if idx >= len(ret.Results) {
+			return false
+		}
+		rv := retResult(ret, idx)
+		if cst, ok := constInt(rv); ok && cst < 0 {
+			continue
+		}
+		if !checkedParagraphPos(p, cal, rv, ret, depth+1) {
+			return false
+		}
+		any = true
+	}
+	return any
+}
+
+// paragraphAssertRegion: v indexes Body.Elements in fn and `at` lies in the ok-branch of a
+// comma-ok assertion of that element to *Paragraph.
+func paragraphAssertRegion(p *Program, fn *ssa.Function, v ssa.Value, at ssa.Instruction) bool {
+	res := false
+	allInstrs(fn, func(in ssa.Instruction) {
+		ta, ok := in.(*ssa.TypeAssert)
+		if !ok || !ta.CommaOk || !typeIs(ta.AssertedType, pkgDoc, "Paragraph") || ta.Referrers() == nil {
+			return
+		}
+		// the asserted value is Elements[v]
+		ld, ok := ta.X.(*ssa.UnOp)
+		if !ok || ld.Op != token.MUL {
+			return
+		}
+		ia, ok := ld.X.(*ssa.IndexAddr)
+		if !ok || !isBodyElements(p, ia.X) || ia.Index != v {
+			return
+		}
+		for _, u := range *ta.Referrers() {
+			ex, ok := u.(*ssa.Extract)
+			if !ok || ex.Index != 1 || ex.Referrers() == nil {
+				continue
+			}
+			for _, u2 := range *ex.Referrers() {
+				if iff, ok := u2.(*ssa.If); ok {
+					if edgeRegion(iff.Block(), iff.Block().Succs[0])[at.Block()] {
+						res = true
+					}
+				}
+			}
+		}
+	})
+	return res
+}
+
+// removesAtParam: fn splices Body.Elements at its integer parameter (directly or by delegating);
+// returns the parameter index or -1.
+func removesAtParam(p *Program, fn *ssa.Function, depth int) int {
+	if depth > 2 || len(fn.Blocks) == 0 {
+		return -1
+	}
+	out := -1
+	allInstrs(fn, func(in ssa.Instruction) {
+		switch x := in.(type) {
+		case *ssa.Slice:
+			if isBodyElements(p, x.X) && x.High != nil && x.Low == nil {
+				if pi := paramIndex(fn, x.High); pi >= 0 {
+					out = pi
+				}
+			}
+		case *ssa.Call:
+			if cal := staticCallee(x); cal != nil && cal != fn && p.inModule(cal) {
+				if qi := removesAtParam(p, cal, depth+1); qi >= 0 && qi < len(x.Call.Args) {
+					if pi := paramIndex(fn, x.Call.Args[qi]); pi >= 0 {
+						out = pi
+					}
+				}
+			}
+		}
+	})
+	return out
+}
+
+func ruleRemoveTyped(r *Run) {
+	p := r.P
+	n := 0
+	for _, fn := range p.exportedAPI(pkgDoc) {
+		if fn.Signature.Recv() == nil || !typeIs(fn.Signature.Recv().Type(), pkgDoc, "Document") || !strings.HasPrefix(fn.Name(), "RemoveParagraph") {
+			continue
+		}
+		sites, okAll := 0, true
+		why := ""
+		allInstrs(fn, func(in ssa.Instruction) {
+			switch x := in.(type) {
+			case *ssa.Slice:
+				if isBodyElements(p, x.X) && x.High != nil && x.Low == nil {
+					sites++
+					if !checkedParagraphPos(p, fn, x.High, in, 0) {
+						okAll = false
+						why = "the splice at " + p.pos(x.Pos()) + " uses a position that is not known to hold a *Paragraph"
+					}
+				}
+			case *ssa.Call:
+				cal := staticCallee(x)
+				if cal == nil || !p.inModule(cal) {
+					return
+				}
+				if qi := removesAtParam(p, cal, 0); qi >= 0 && qi < len(x.Call.Args) {
+					sites++
+					if !checkedParagraphPos(p, fn, x.Call.Args[qi], in, 0) {
+						okAll = false
+						why = "the position handed to " + shortName(cal) + " at " + p.pos(x.Pos()) + " is not known to hold a *Paragraph (it is computed, not found by looking at the elements)"
+					}
+				}
+			}
+		})
+		if sites == 0 {
+			r.Undecided("remove-typed", shortName(fn), fn.Pos(), "no removal of a body element found in "+shortName(fn))
+			continue
+		}
+		n++
+		r.Check("remove-typed", shortName(fn), fn.Pos(), okAll,
+			fmt.Sprintf("%s must remove the element at a position where a *Paragraph was found (range index inside the ok-branch of element.(*Paragraph)): %s", shortName(fn), map[bool]string{true: "yes", false: why + " — a table, the section properties or a bookmark can be removed instead"}[okAll]))
+	}
+	r.Min("remove_paragraph_entry_points", n, 2)
+}
+
+// ---------------------------------------------------------------------------
+// R-COL-ALL-ROWS (C09): a column operation changes EVERY row or none.  In the *Table methods that
+// insert or delete columns, each loop over t.Rows that rewrites a row's Cells does so on every
+// iteration (no `continue` for rows that look too short: the grid loses a column while those rows
+// keep all their cells, and the row no longer spans the declared grid).
+// ---------------------------------------------------------------------------
+
+func ruleColAllRows(r *Run) {
+	p := r.P
+	n := 0
+	for _, fn := range p.exportedAPI(pkgDoc) {
+		if fn.Signature.Recv() == nil || !typeIs(fn.Signature.Recv().Type(), pkgDoc, "Table") || !strings.Contains(fn.Name(), "Column") {
+			continue
+		}
+		for _, g := range helperGroup(p, fn) {
+			for _, l := range naturalLoops(g) {
+				ri := rangeOf(l)
+				if ri == nil {
+					continue
+				}
+				ld, ok := ri.X.(*ssa.UnOp)
+				if !ok || ld.Op != token.MUL {
+					continue
+				}
+				if fv, _ := fieldOfAddr(ld.X); !fieldIs(p, fv, pkgDoc, "Table", "Rows") {
+					continue
+				}
+				cut := map[*ssa.BasicBlock]bool{}
+				for b := range l.Body {
+					for _, in := range b.Instrs {
+						if st, ok := in.(*ssa.Store); ok {
+							if fv, _ := fieldOfAddr(st.Addr); fieldIs(p, fv, pkgDoc, "TableRow", "Cells") {
+								cut[b] = true
+							}
+						}
+					}
+				}
+				if len(cut) == 0 {
+					continue // a validating or reading loop
+				}
+				n++
+				iff, ok := l.Header.Instrs[len(l.Header.Instrs)-1].(*ssa.If)
+				if !ok {
+					continue
+				}
+				body := iff.Block().Succs[0]
+				if !l.Body[body] {
+					body = iff.Block().Succs[1]
+				}
+				okAll := cut[body] || !reachableBlocks(body, cut)[l.Header]
+				r.Check("col-all-rows", shortName(fn)+":"+shortName(g), l.Header.Instrs[0].Pos(), okAll,
+					fmt.Sprintf("%s rewrites the cells of the rows in a loop over t.Rows; every iteration must do so (a row that is skipped keeps its cells while the grid and the other rows change: the table is no longer a grid)", shortName(fn)))
+			}
+		}
+	}
+	r.Min("column_loops_rewriting_rows", n, 3)
 }
